@@ -8,12 +8,12 @@ rm -rf "$WT"; git -C /repo worktree prune
 git -C /repo worktree add --detach "$WT" HEAD >/dev/null 2>&1 || { echo "$NAME worktree failed"; exit 3; }
 LOG="$DIR/confirm.log"; : > "$LOG"
 LIBS="-lopenblas -llapack -lfftw3 -lboost_serialization"
-CXX=g++; grep -q "mpi.h\|adaptors/mpi" "$DIR/demo.cpp" && CXX=mpicxx
+NDBG="-DNDEBUG"; grep -q "compile this demo with assertions enabled" "$DIR/demo.cpp" && NDBG=""; CXX=g++; grep -q "mpi.h\|adaptors/mpi" "$DIR/demo.cpp" && CXX=mpicxx
 export OMPI_ALLOW_RUN_AS_ROOT=1 OMPI_ALLOW_RUN_AS_ROOT_CONFIRM=1 OPENBLAS_NUM_THREADS=1
 # demo without the change
-$CXX -std=c++17 -O1 -DNDEBUG -I"$WT/include" "$DIR/demo.cpp" -o "$WT/demo_clean" $LIBS >>"$LOG" 2>&1; "$WT/demo_clean" >>"$LOG" 2>&1; RC_CLEAN=$?
+$CXX -std=c++17 -O1 $NDBG -I"$WT/include" "$DIR/demo.cpp" -o "$WT/demo_clean" $LIBS >>"$LOG" 2>&1; "$WT/demo_clean" >>"$LOG" 2>&1; RC_CLEAN=$?
 if ! git -C "$WT" apply -3 "$DIR/patch.diff" >>"$LOG" 2>&1 && ! git -C "$WT" apply "$DIR/patch.diff" >>"$LOG" 2>&1; then echo "$NAME PATCH-DOES-NOT-APPLY"; git -C /repo worktree remove --force "$WT"; exit 3; fi
-$CXX -std=c++17 -O1 -DNDEBUG -I"$WT/include" "$DIR/demo.cpp" -o "$WT/demo_mut" $LIBS >>"$LOG" 2>&1; "$WT/demo_mut" >>"$LOG" 2>&1; RC_MUT=$?
+$CXX -std=c++17 -O1 $NDBG -I"$WT/include" "$DIR/demo.cpp" -o "$WT/demo_mut" $LIBS >>"$LOG" 2>&1; "$WT/demo_mut" >>"$LOG" 2>&1; RC_MUT=$?
 ( cd "$WT" && cmake -G Ninja -B _build -S . -DCMAKE_BUILD_TYPE=RelWithDebInfo -DCMAKE_CXX_FLAGS=-Wno-error >/dev/null 2>&1 && cmake --build _build -j${JOBS:-8} 2>&1 | tail -2 >>"$LOG"; ctest --test-dir _build -j8 --timeout 900 2>&1 | tail -4 >>"$LOG" )
 PASSLINE=$(grep -E "tests passed" "$LOG" | tail -1)
 echo "$NAME demo_clean_rc=$RC_CLEAN demo_mutant_rc=$RC_MUT suite: $PASSLINE"
